@@ -44,6 +44,7 @@ CONSTANTS Fam,        \* "mac" | "lex" | "cond" | "if" | "w64"   (lex reuses Kin
           LineSet,    \* cond: line kinds used besides if-openers: subset of {"elif","else","endif","def","undef"}
           MaxD,       \* if: operator nesting depth
           AtomSet,    \* if: names of atoms used
+          GapSet,     \* file: the gaps used (subset of {"no","sp","bc","bn","lc","nl","snl"}); KindSet = skeleton names
           OpSet       \* if: operators used ("u-","u~","u!","u+", binary spellings, "?:")
 
 VARIABLES g, ph
@@ -65,7 +66,7 @@ JoinC(cs) == IF cs = <<>> THEN "" ELSE Head(cs) \o JoinC(Tail(cs))
 (* ======================================================================= *)
 Lower == {"a", "b", "c", "d", "e", "f", "g", "h", "i", "j", "k", "l", "m", "n", "o", "p", "q", "r",
           "s", "t", "u", "v", "w", "x", "y", "z"}
-Upper == {"A", "C", "E", "G", "I", "P", "R", "S", "T", "V", "X"}
+Upper == {"A", "B", "C", "D", "E", "F", "G", "H", "I", "J", "K", "L", "M", "N", "O", "P", "Q", "R", "S", "T", "U", "V", "W", "X", "Y", "Z"}
 Digits == {"0", "1", "2", "3", "4", "5", "6", "7", "8", "9"}
 IsLetter(c) == c \in Lower \cup Upper \cup {"_"}
 IsDigit(c) == c \in Digits
@@ -82,7 +83,13 @@ NumEnd(cs, j) ==
   ELSE IF IsDigit(cs[j]) \/ IsLetter(cs[j]) \/ cs[j] = "." THEN NumEnd(cs, j + 1)
   ELSE j
 NumStart(cs, i) == IsDigit(cs[i]) \/ (cs[i] = "." /\ i < Len(cs) /\ IsDigit(cs[i + 1]))
-Puncts == {<<"#">>, <<"#", "#">>, <<"(">>, <<")">>, <<",">>, <<"+">>, <<"-">>, <<"+", "+">>, <<"-", "-">>, <<".">>, <<".", ".", ".">>}
+(* punctuators (6.4.6) that can be spelled with the characters the generators use, digraphs included *)
+Pu4 == {<<"%", ":", "%", ":">>}
+Pu3 == {<<".", ".", ".">>}
+Pu2 == {<<"#", "#">>, <<"+", "+">>, <<"-", "-">>, <<"-", ">">>, <<"<", "<">>, <<">", ">">>, <<"<", ":">>, <<":", ">">>, <<"<", "%">>,
+       <<"%", ">">>, <<"%", ":">>, <<"&", "&">>, <<"|", "|">>}
+Pu1 == {<<"#">>, <<"(">>, <<")">>, <<",">>, <<"+">>, <<"-">>, <<".">>, <<"%">>, <<":">>, <<"<">>, <<">">>, <<"/">>, <<"*">>, <<"&">>, <<"|">>, <<"!">>, <<"[">>, <<"]">>}
+Puncts == Pu1 \cup Pu2 \cup Pu3 \cup Pu4
 LexKind(sp) ==
   IF sp = <<>> THEN "bad"
   ELSE IF IsLetter(sp[1]) /\ AllAlnum(sp) THEN "id"
@@ -102,37 +109,58 @@ ItemSp(it) ==                     \* spelling of a one-token alphabet item
     [] it = "C2" -> <<"'", "$", "$", "'">>        \* '\\'
     [] OTHER -> <<it>>
 ItemKind(it) == IF it \in {"S1", "S2"} THEN "str" ELSE IF it \in {"C1", "C2"} THEN "chr" ELSE LexKind(ItemSp(it))
-Tok(k, sp, ws) == [k |-> k, s |-> sp, hs |-> {}, ws |-> ws]
+Tok(k, sp, ws) == [k |-> k, s |-> sp, hs |-> {}, ws |-> ws, nl |-> FALSE]     \* nl: a new-line in the white space before it
 ItemTok(it, ws) == Tok(ItemKind(it), ItemSp(it), ws)
 ItemToks(it, ws) ==               \* "#x" is the two tokens # x
   IF it \in {"#x", "#y", "#V"} THEN <<Tok("pu", <<"#">>, ws), ItemTok(IF it = "#x" THEN "x" ELSE IF it = "#y" THEN "y" ELSE "V", TRUE)>>
   ELSE <<ItemTok(it, ws)>>
-(* Translation phase 3 on one line of characters: maximal munch (6.4p4).  @ opens a string literal, ' a   *)
-(* character constant ($ escapes the next character); a character that starts no token gives kind "bad". *)
-RECURSIVE IdEnd(_, _), LitEnd(_, _, _), LexFrom(_, _, _)
+(* Translation phase 3 on a sequence of characters: maximal munch (6.4p4); each comment is one space      *)
+(* (5.1.1.2p1.3), so a new-line inside a block comment is not a new-line of the line structure.  @ opens  *)
+(* a string literal, ' a character constant ($ escapes the next character), ~ is the new-line character;  *)
+(* u8@ u@ U@ L@ u' U' L' are literal prefixes (6.4.5, 6.4.4.4), any other u8.. is an identifier.          *)
+(* A character that starts no token gives kind "bad".                                                     *)
+RECURSIVE IdEnd(_, _), LitEnd(_, _, _), BlockEnd(_, _), LineEnd(_, _), SkipWs(_, _, _), LexFrom(_, _, _, _)
 IdEnd(cs, j) == IF j <= Len(cs) /\ (IsLetter(cs[j]) \/ IsDigit(cs[j])) THEN IdEnd(cs, j + 1) ELSE j
-LitEnd(cs, j, q) == IF j > Len(cs) THEN 0                       \* unterminated
+LitEnd(cs, j, q) == IF j > Len(cs) \/ cs[j] = "~" THEN 0           \* unterminated
                     ELSE IF cs[j] = "$" THEN LitEnd(cs, j + 2, q)
                     ELSE IF cs[j] = q THEN j + 1 ELSE LitEnd(cs, j + 1, q)
-LexFrom(cs, i, ws) ==
+BlockEnd(cs, j) == IF j + 1 > Len(cs) THEN 0                       \* index after the closing * /, 0 if there is none
+                   ELSE IF cs[j] = "*" /\ cs[j + 1] = "/" THEN j + 2 ELSE BlockEnd(cs, j + 1)
+LineEnd(cs, j) == IF j > Len(cs) \/ cs[j] = "~" THEN j ELSE LineEnd(cs, j + 1)
+WsStart(cs, i) == cs[i] \in {" ", "~"} \/ (cs[i] = "/" /\ i < Len(cs) /\ cs[i + 1] \in {"*", "/"})
+SkipWs(cs, i, nl) ==                  \* [j |-> first index after the run of white space and comments (0: unterminated comment), nl]
+  IF i > Len(cs) \/ ~WsStart(cs, i) THEN [j |-> i, nl |-> nl]
+  ELSE IF cs[i] = " " THEN SkipWs(cs, i + 1, nl)
+  ELSE IF cs[i] = "~" THEN SkipWs(cs, i + 1, TRUE)
+  ELSE IF cs[i + 1] = "/" THEN SkipWs(cs, LineEnd(cs, i + 2), nl)
+  ELSE LET e == BlockEnd(cs, i + 2) IN IF e = 0 THEN [j |-> 0, nl |-> nl] ELSE SkipWs(cs, e, nl)
+PrefLen(cs, i) ==                     \* length of an encoding prefix that is followed by a quote
+  IF cs[i] = "u" /\ i + 2 <= Len(cs) /\ cs[i + 1] = "8" /\ cs[i + 2] = "@" THEN 2
+  ELSE IF cs[i] \in {"u", "U", "L"} /\ i < Len(cs) /\ cs[i + 1] \in {"@", "'"} THEN 1 ELSE 0
+LexFrom(cs, i, ws, nl) ==
   IF i > Len(cs) THEN <<>>
   ELSE LET c == cs[i]
-           n == IF i < Len(cs) THEN cs[i + 1] ELSE " "
-           Emit1(k, j) == <<Tok(k, SubSeq(cs, i, j - 1), ws)>> \o LexFrom(cs, j, FALSE)
-       IN IF c = " " THEN LexFrom(cs, i + 1, TRUE)
+           Cut(len) == IF i + len - 1 <= Len(cs) THEN SubSeq(cs, i, i + len - 1) ELSE <<>>
+           Emit1(k, j) == <<[Tok(k, SubSeq(cs, i, j - 1), ws) EXCEPT !.nl = nl]>> \o LexFrom(cs, j, FALSE, FALSE)
+           Bad == <<Tok("bad", <<c>>, ws)>>
+           p == PrefLen(cs, i)
+       IN IF WsStart(cs, i) THEN LET r == SkipWs(cs, i, FALSE) IN IF r.j = 0 THEN Bad ELSE LexFrom(cs, r.j, TRUE, nl \/ r.nl)
           ELSE IF NumStart(cs, i) THEN Emit1("num", NumEnd(cs, i + 1))
+          ELSE IF p > 0 \/ c \in {"@", "'"} THEN LET j == LitEnd(cs, i + p + 1, cs[i + p]) IN
+               IF j = 0 THEN Bad ELSE Emit1(IF cs[i + p] = "@" THEN "str" ELSE "chr", j)
           ELSE IF IsLetter(c) THEN Emit1("id", IdEnd(cs, i + 1))
-          ELSE IF c \in {"@", "'"} THEN LET j == LitEnd(cs, i + 1, c) IN
-               IF j = 0 THEN <<Tok("bad", <<c>>, ws)>> ELSE Emit1(IF c = "@" THEN "str" ELSE "chr", j)
-          ELSE IF c = "." /\ i + 2 <= Len(cs) /\ n = "." /\ cs[i + 2] = "." THEN Emit1("pu", i + 3)
-          ELSE IF c \in {"#", "+", "-"} /\ n = c THEN Emit1("pu", i + 2)
-          ELSE IF <<c>> \in Puncts THEN Emit1("pu", i + 1)
-          ELSE <<Tok("bad", <<c>>, ws)>>
-LexLine(cs) == LexFrom(cs, 1, TRUE)
+          ELSE IF Cut(4) \in Pu4 THEN Emit1("pu", i + 4)
+          ELSE IF Cut(3) \in Pu3 THEN Emit1("pu", i + 3)
+          ELSE IF Cut(2) \in Pu2 THEN Emit1("pu", i + 2)
+          ELSE IF <<c>> \in Pu1 THEN Emit1("pu", i + 1)
+          ELSE Bad
+LexLine(cs) == LexFrom(cs, 1, TRUE, FALSE)
 TextOf(ts) == Flat([i \in 1..Len(ts) |-> (IF ts[i].ws THEN <<" ">> ELSE <<>>) \o ts[i].s])
-ErrTok(code) == [k |-> "err", s |-> <<code>>, hs |-> {}, ws |-> TRUE]
-Plm == [k |-> "plm", s |-> <<>>, hs |-> {}, ws |-> TRUE]      \* placemarker (6.10.3.3p2)
+ErrTok(code) == [k |-> "err", s |-> <<code>>, hs |-> {}, ws |-> TRUE, nl |-> FALSE]
+Plm == [k |-> "plm", s |-> <<>>, hs |-> {}, ws |-> TRUE, nl |-> FALSE]      \* placemarker (6.10.3.3p2)
 IsPu(t, c) == t.k = "pu" /\ t.s = c
+IsHash(t) == IsPu(t, <<"#">>) \/ IsPu(t, <<"%", ":">>)                        \* # and its digraph %: (6.4.6p3)
+IsPaste(t) == IsPu(t, <<"#", "#">>) \/ IsPu(t, <<"%", ":", "%", ":">>)
 IsErr(t) == t.k = "err"
 HasErr(ts, code) == \E i \in 1..Len(ts) : ts[i].k = "err" /\ ts[i].s = <<code>>
 FirstErr(ts) == ts[CHOOSE i \in 1..Len(ts) : ts[i].k = "err" /\ \A j \in 1..(i - 1) : ts[j].k # "err"]
@@ -184,7 +212,7 @@ Paste(C, L, R) ==
        IN IF k = "bad" THEN ErrTok("U")                                   \* 6.10.3.3p3: undefined
           ELSE IF k = "id" /\ DefIdx(C, sp) # 0 /\ sp \in (L.hs \cup R.hs) \ (L.hs \cap R.hs)
                THEN ErrTok("U")                                           \* whether the new name is painted is not determined
-          ELSE [k |-> k, s |-> sp, hs |-> L.hs \cap R.hs, ws |-> L.ws]
+          ELSE [k |-> k, s |-> sp, hs |-> L.hs \cap R.hs, ws |-> L.ws, nl |-> L.nl]
 Glue(C, ls, rs) == Front(ls) \o <<Paste(C, Last(ls), Head(rs))>> \o Tail(rs)
 PasteFeat(C, L, R) ==
   {"paste"} \cup (IF L.k = "plm" \/ R.k = "plm" THEN {"paste_plm"} ELSE {})
@@ -217,6 +245,7 @@ ArgsOk(M, args) ==                \* 6.10.3p4: argument count
   ELSE Len(args) = Len(M.params)
 
 Res(o, f) == [o |-> o, f |-> f]
+WsOr(ts, ws) == IF ts = <<>> THEN ts ELSE <<[ts[1] EXCEPT !.ws = @ \/ ws]>> \o Tail(ts)     \* white space before the parameter stays
 WsFirst(ts, ws) == IF ts = <<>> THEN ts ELSE <<[ts[1] EXCEPT !.ws = ws]>> \o Tail(ts)   \* the result stands where the name stood
 RECURSIVE Expand(_, _), Subst(_, _, _, _, _, _)
 
@@ -232,26 +261,26 @@ Subst(C, M, ap, i, os, fs) ==
   IN IF i > n THEN Res(os, fs)
      ELSE LET T == B[i]
               p == IF M.fl THEN ParamIdx(M, T) ELSE 0
-          IN IF M.fl /\ IsPu(T, <<"#">>) /\ i < n /\ ParamIdx(M, B[i + 1]) > 0              \* # parameter
+          IN IF M.fl /\ IsHash(T) /\ i < n /\ ParamIdx(M, B[i + 1]) > 0              \* # parameter
              THEN LET arg == ap[ParamIdx(M, B[i + 1])] IN
                   Subst(C, M, ap, i + 2, Append(os, Stringize(arg, T.ws)),
                         fs \cup StrFeat(arg) \cup (IF SharpRun(M, i) THEN {"str_then_param"} ELSE {}))
-             ELSE IF IsPu(T, <<"#", "#">>) /\ i < n                                          \* ## operand
+             ELSE IF IsPaste(T) /\ i < n                                          \* ## operand
              THEN LET U == B[i + 1]
                       q == IF M.fl THEN ParamIdx(M, U) ELSE 0
                       rs == IF q > 0 THEN OrPlm(ap[q]) ELSE <<U>>
-                      chain == /\ i >= 3 /\ IsPu(B[i - 2], <<"#", "#">>)                     \* X ## p ## q with p and q empty
+                      chain == /\ i >= 3 /\ IsPaste(B[i - 2])                     \* X ## p ## q with p and q empty
                                /\ q > 0 /\ ap[q] = <<>>
                                /\ M.fl /\ ParamIdx(M, B[i - 1]) > 0 /\ ap[ParamIdx(M, B[i - 1])] = <<>>
-                  IN IF M.fl /\ IsPu(U, <<"#">>) /\ i + 1 < n /\ ParamIdx(M, B[i + 2]) > 0
+                  IN IF M.fl /\ IsHash(U) /\ i + 1 < n /\ ParamIdx(M, B[i + 2]) > 0
                      THEN Res(Append(os, ErrTok("U")), fs)                                   \* ## # x : order of # and ## (6.10.3.2p2)
                      ELSE Subst(C, M, ap, i + 2, Glue(C, os, rs),
                                 fs \cup PasteFeat(C, Last(os), Head(rs)) \cup (IF chain THEN {"paste_plm_chain"} ELSE {}))
-             ELSE IF p > 0 /\ i < n /\ IsPu(B[i + 1], <<"#", "#">>)                          \* parameter ##  : not expanded
-             THEN Subst(C, M, ap, i + 1, os \o OrPlm(ap[p]), fs)
+             ELSE IF p > 0 /\ i < n /\ IsPaste(B[i + 1])                          \* parameter ##  : not expanded
+             THEN Subst(C, M, ap, i + 1, os \o WsOr(OrPlm(ap[p]), T.ws), fs)
              ELSE IF p > 0 THEN                                                              \* fully macro-replaced argument
                   LET r == Expand(C, ap[p]) IN
-                  Subst(C, M, ap, i + 1, os \o r.o,
+                  Subst(C, M, ap, i + 1, os \o WsOr(r.o, T.ws),
                         fs \cup r.f \cup (IF ap[p] = <<>> THEN {"arg_empty"} ELSE {})
                            \cup (IF r.f \cap {"obj", "fn"} # {} THEN {"arg_preexpanded"} ELSE {})
                            \cup (IF ap[p] # <<>> /\ Last(ap[p]).k = "id" /\ DefIdx(C, Last(ap[p]).s) # 0 /\ C.env[DefIdx(C, Last(ap[p]).s)].fl
@@ -261,7 +290,7 @@ Subst(C, M, ap, i, os, fs) ==
 
 HashPasteAdj(M) ==                \* "# x ##" in the list: order of evaluation of # and ## unspecified
   M.fl /\ \E i \in 1..(Len(M.body) - 2) :
-             IsPu(M.body[i], <<"#">>) /\ ParamIdx(M, M.body[i + 1]) > 0 /\ IsPu(M.body[i + 2], <<"#", "#">>)
+             IsHash(M.body[i]) /\ ParamIdx(M, M.body[i + 1]) > 0 /\ IsPaste(M.body[i + 2])
 
 Replace(C, M, ap, hs) ==
   IF HashPasteAdj(M) THEN Res(<<ErrTok("U")>>, {})
@@ -300,6 +329,8 @@ Expand(C, ts) ==
                               \cup (IF sx THEN {"call_past_list_end"} ELSE {})
                               \cup (IF T.hs \ Head(R).hs # {} THEN {"call_name_ends_list"} ELSE {})
                               \cup (IF A.gap >= 2 THEN {"call_past_2_list_ends"} ELSE {})
+                              \cup (IF \E j \in 1..(A.nxt - 1) : R[j].nl THEN {"call_spans_lines"} ELSE {})
+                              \cup (IF Len(M.params) = 0 /\ ~M.va /\ R[A.nxt - 1].nl THEN {"call0_newline_in_parens"} ELSE {})
                               \cup (IF sx /\ \E j \in 1..Len(fl) : fl[j].k = "id" /\ fl[j].s \in fl[j].hs /\ fl[j].s \notin A.rhs
                                     THEN {"call_past_list_end_painted_arg"} ELSE {}))
 
@@ -706,7 +737,8 @@ CondRow == [fam |-> "cond", lines |-> g.lines, st |-> g.st, exp |-> g.out]
 (* "catl" C( text , 1 ), "catr" C( 0x , text ), "cate" C( 1e , text ).  0xE+X is ONE pp-number, so its X   *)
 (* is not the macro X.  A case whose expected output, printed with its white space, does not lex back to   *)
 (* the same tokens is dropped ("G"): c2m -E prints tokens without inserting separators.                    *)
-Ch(str) == CASE str = "0x" -> <<"0", "x">> [] str = "1e" -> <<"1", "e">> [] OTHER -> <<str>>
+Ch(str) == CASE str = "0x" -> <<"0", "x">> [] str = "1e" -> <<"1", "e">> [] str = "@s@" -> <<"@", "s", "@">>
+             [] str = "'c'" -> <<"'", "c", "'">> [] OTHER -> <<str>>
 LexTok(str) == Head(LexLine(Ch(str)))
 LexEnv == <<[name |-> <<"X">>, fl |-> FALSE, params |-> <<>>, va |-> FALSE, body |-> <<Tok("num", <<"1">>, TRUE)>>],
             [name |-> <<"S">>, fl |-> TRUE, params |-> <<<<"x">>>>, va |-> FALSE, body |-> <<Tok("pu", <<"#">>, TRUE), Tok("id", <<"x">>, TRUE)>>],
@@ -715,10 +747,11 @@ LexEnv == <<[name |-> <<"X">>, fl |-> FALSE, params |-> <<>>, va |-> FALSE, body
             [name |-> <<"C">>, fl |-> TRUE, params |-> <<<<"x">>, <<"y">>>>, va |-> FALSE,
              body |-> <<Tok("id", <<"x">>, TRUE), Tok("pu", <<"#", "#">>, TRUE), Tok("id", <<"y">>, TRUE)>>],
             [name |-> <<"I">>, fl |-> TRUE, params |-> <<<<"x">>>>, va |-> FALSE, body |-> <<Tok("id", <<"x">>, TRUE)>>]>>
-LexCtxs == SelectSeq(<<"plain", "arg", "str", "xstr", "catl", "catr", "cate">>, LAMBDA k : k \in KindSet)
-LexChunks == SelectSeq(<<"0x", "0", "1", "5", ".", "e", "E", "p", "P", "x", "a", "+", "-", "X", " ">>, LAMBDA k : k \in InvAlpha)
+LexCtxs == SelectSeq(<<"plain", "plaink", "arg", "str", "xstr", "catl", "catr", "cate">>, LAMBDA k : k \in KindSet)
+LexChunks == SelectSeq(<<"0x", "0", "1", "5", "8", ".", "e", "E", "p", "P", "x", "a", "u", "U", "L", "@s@", "'c'", "+", "-", "%", ":", "<", ">", "#", "X", " ">>, LAMBDA k : k \in InvAlpha)
 LexSrc(ctx, txt) ==
   CASE ctx = "plain" -> txt
+    [] ctx = "plaink" -> <<"k", " ">> \o txt          \* text that may start with # or %: must not start the line
     [] ctx = "arg" -> <<"I", "(", " ">> \o txt \o <<" ", ")">>
     [] ctx = "str" -> <<"S", "(", " ">> \o txt \o <<" ", ")">>
     [] ctx = "xstr" -> <<"T", "(", " ">> \o txt \o <<" ", ")">>
@@ -745,7 +778,331 @@ LexRow ==
            ft |-> r.ft \cup (IF \E i \in 1..(Len(toks) - 1) : IsPu(toks[i], <<".">>) /\ toks[i + 1].s[1] = "." /\ ~toks[i + 1].ws
                              THEN {"lex_dot_dot"} ELSE {})             \* a . directly followed by . or a pp-number .d (not ...)
                        \cup (IF \E i \in 1..Len(toks) : toks[i].k = "num" /\ \E j \in 2..Len(toks[i].s) : toks[i].s[j] \in {"+", "-"}
-                             THEN {"lex_num_with_sign"} ELSE {})]
+                             THEN {"lex_num_with_sign"} ELSE {})
+                       \cup (IF \E i \in 1..Len(toks) : toks[i].k = "id" /\ Len(toks[i].s) >= 2 /\ toks[i].s[1] = "u" /\ toks[i].s[2] = "8"
+                             THEN {"lex_u8_identifier"} ELSE {})            \* u8 that is not the prefix of a string literal
+                       \cup (IF \E i \in 1..Len(toks) : toks[i].k \in {"str", "chr"} /\ toks[i].s[1] \in {"u", "U", "L"}
+                             THEN {"lex_prefixed_literal"} ELSE {})
+                       \cup (IF \E i \in 1..(Len(toks) - 1) : IsPu(toks[i], <<"%", ":">>) /\ ~toks[i + 1].ws /\ toks[i + 1].s[1] = "%"
+                             THEN {"lex_percent_colon_percent"} ELSE {})    \* %:% that is not the beginning of %:%:
+                       \cup (IF \E i \in 1..Len(toks) : toks[i].k = "pu" /\ toks[i].s \in {<<"%", ":">>, <<"%", ":", "%", ":">>, <<"<", ":">>, <<":", ">">>, <<"<", "%">>, <<"%", ">">>}
+                             THEN {"lex_digraph"} ELSE {})]
+
+(* ======================================================================= *)
+(*      FILE FAMILY: comments, new-lines and digraphs in the line structure *)
+(* ======================================================================= *)
+(* The case is a small source FILE of characters (~ = new-line): a skeleton from Skel with, at every       *)
+(* marked position, a gap chosen from a class of white space: nothing, a space, a one-line comment, a     *)
+(* block comment that spans two lines, a // comment, a new-line.  The file is lexed as a whole (comments   *)
+(* become one space BEFORE directives are recognised, 5.1.1.2), cut into lines at the new-lines outside    *)
+(* comments, and processed: #define (object/function-like, %: and %:%: digraphs), #undef, #if/#ifdef/      *)
+(* #ifndef/#elif/#else/#endif with defined, !, &&, ||, #include of the fixed header (one token inc_tok);  *)
+(* consecutive text lines are macro-replaced together, so an invocation may span lines (6.10.3p10).        *)
+GapCh(n) == CASE n = "no" -> <<>> [] n = "sp" -> <<" ">> [] n = "bc" -> <<"/", "*", "c", "*", "/">>
+              [] n = "bn" -> <<"/", "*", "c", "~", "d", "*", "/">> [] n = "lc" -> <<" ", "/", "/", "c">>
+              [] n = "nl" -> <<"~">> [] n = "snl" -> <<" ", "~", " ">>
+GapClass(c) == CASE c = "d" -> <<"sp", "bc", "bn">>             \* inside a directive, where separation is needed
+                 [] c = "o" -> <<"no", "sp", "bn">>             \* inside a directive, optional
+                 [] c = "e" -> <<"no", "bc", "bn", "lc">>       \* at the end of a directive line
+                 [] c = "a" -> <<"no", "sp", "nl", "snl", "bn">> \* in and around an argument list
+Skel(k) ==
+  CASE k = "def_obj" ->
+     <<[t |-> "f", c |-> "", v |-> <<"#">>],
+       [t |-> "s", c |-> "o", v |-> <<>>],
+       [t |-> "f", c |-> "", v |-> <<"d", "e", "f", "i", "n", "e">>],
+       [t |-> "s", c |-> "d", v |-> <<>>],
+       [t |-> "f", c |-> "", v |-> <<"A">>],
+       [t |-> "s", c |-> "d", v |-> <<>>],
+       [t |-> "f", c |-> "", v |-> <<"1">>],
+       [t |-> "s", c |-> "o", v |-> <<>>],
+       [t |-> "f", c |-> "", v |-> <<"+">>],
+       [t |-> "s", c |-> "o", v |-> <<>>],
+       [t |-> "f", c |-> "", v |-> <<"2">>],
+       [t |-> "s", c |-> "e", v |-> <<>>],
+       [t |-> "f", c |-> "", v |-> <<"~", "A", "~">>]>>
+  [] k = "def_fn" ->
+     <<[t |-> "f", c |-> "", v |-> <<"#", "d", "e", "f", "i", "n", "e">>],
+       [t |-> "s", c |-> "d", v |-> <<>>],
+       [t |-> "f", c |-> "", v |-> <<"F", "(">>],
+       [t |-> "s", c |-> "o", v |-> <<>>],
+       [t |-> "f", c |-> "", v |-> <<"x">>],
+       [t |-> "s", c |-> "o", v |-> <<>>],
+       [t |-> "f", c |-> "", v |-> <<",">>],
+       [t |-> "s", c |-> "o", v |-> <<>>],
+       [t |-> "f", c |-> "", v |-> <<"y">>],
+       [t |-> "s", c |-> "o", v |-> <<>>],
+       [t |-> "f", c |-> "", v |-> <<")">>],
+       [t |-> "s", c |-> "d", v |-> <<>>],
+       [t |-> "f", c |-> "", v |-> <<"x", "-", "y">>],
+       [t |-> "s", c |-> "e", v |-> <<>>],
+       [t |-> "f", c |-> "", v |-> <<"~", "F", "(", "1", ",", "2", ")", "~">>]>>
+  [] k = "call2" ->
+     <<[t |-> "f", c |-> "", v |-> <<"#", "d", "e", "f", "i", "n", "e", " ", "F", "(", "x", ",", "y", ")", " ", "[", "x", "|", "y", "]", "~", "F">>],
+       [t |-> "s", c |-> "a", v |-> <<>>],
+       [t |-> "f", c |-> "", v |-> <<"(">>],
+       [t |-> "s", c |-> "a", v |-> <<>>],
+       [t |-> "f", c |-> "", v |-> <<"1">>],
+       [t |-> "s", c |-> "a", v |-> <<>>],
+       [t |-> "f", c |-> "", v |-> <<",">>],
+       [t |-> "s", c |-> "a", v |-> <<>>],
+       [t |-> "f", c |-> "", v |-> <<"2">>],
+       [t |-> "s", c |-> "a", v |-> <<>>],
+       [t |-> "f", c |-> "", v |-> <<")", "~">>]>>
+  [] k = "call1" ->
+     <<[t |-> "f", c |-> "", v |-> <<"#", "d", "e", "f", "i", "n", "e", " ", "H", "(", "x", ")", " ", "<", "x", ">", "~", "#", "d", "e", "f", "i", "n", "e", " ", "A", " ", "1", "~", "H">>],
+       [t |-> "s", c |-> "a", v |-> <<>>],
+       [t |-> "f", c |-> "", v |-> <<"(">>],
+       [t |-> "s", c |-> "a", v |-> <<>>],
+       [t |-> "f", c |-> "", v |-> <<"A">>],
+       [t |-> "s", c |-> "a", v |-> <<>>],
+       [t |-> "f", c |-> "", v |-> <<")", " ", "H", "(">>],
+       [t |-> "s", c |-> "a", v |-> <<>>],
+       [t |-> "f", c |-> "", v |-> <<")", "~">>]>>
+  [] k = "call0" ->
+     <<[t |-> "f", c |-> "", v |-> <<"#", "d", "e", "f", "i", "n", "e", " ", "Z", "(", ")", " ", "1", "~", "Z">>],
+       [t |-> "s", c |-> "a", v |-> <<>>],
+       [t |-> "f", c |-> "", v |-> <<"(">>],
+       [t |-> "s", c |-> "a", v |-> <<>>],
+       [t |-> "f", c |-> "", v |-> <<")", " ", "Z", "(">>],
+       [t |-> "s", c |-> "a", v |-> <<>>],
+       [t |-> "f", c |-> "", v |-> <<")">>],
+       [t |-> "s", c |-> "a", v |-> <<>>],
+       [t |-> "f", c |-> "", v |-> <<"+", "~">>]>>
+  [] k = "if_expr" ->
+     <<[t |-> "f", c |-> "", v |-> <<"#", "d", "e", "f", "i", "n", "e", " ", "L", " ", "1", "~", "#">>],
+       [t |-> "s", c |-> "o", v |-> <<>>],
+       [t |-> "f", c |-> "", v |-> <<"i", "f">>],
+       [t |-> "s", c |-> "d", v |-> <<>>],
+       [t |-> "f", c |-> "", v |-> <<"d", "e", "f", "i", "n", "e", "d", "(", "L", ")">>],
+       [t |-> "s", c |-> "d", v |-> <<>>],
+       [t |-> "f", c |-> "", v |-> <<"&", "&">>],
+       [t |-> "s", c |-> "d", v |-> <<>>],
+       [t |-> "f", c |-> "", v |-> <<"d", "e", "f", "i", "n", "e", "d">>],
+       [t |-> "s", c |-> "d", v |-> <<>>],
+       [t |-> "f", c |-> "", v |-> <<"N">>],
+       [t |-> "s", c |-> "e", v |-> <<>>],
+       [t |-> "f", c |-> "", v |-> <<"~", "t", "~", "#", "e", "l", "s", "e", "~", "e", "~", "#", "e", "n", "d", "i", "f", "~">>]>>
+  [] k = "elif" ->
+     <<[t |-> "f", c |-> "", v |-> <<"#", "i", "f", " ", "0", "~", "a", "~", "#">>],
+       [t |-> "s", c |-> "o", v |-> <<>>],
+       [t |-> "f", c |-> "", v |-> <<"e", "l", "i", "f">>],
+       [t |-> "s", c |-> "d", v |-> <<>>],
+       [t |-> "f", c |-> "", v |-> <<"1">>],
+       [t |-> "s", c |-> "d", v |-> <<>>],
+       [t |-> "f", c |-> "", v |-> <<"|", "|">>],
+       [t |-> "s", c |-> "d", v |-> <<>>],
+       [t |-> "f", c |-> "", v |-> <<"0">>],
+       [t |-> "s", c |-> "e", v |-> <<>>],
+       [t |-> "f", c |-> "", v |-> <<"~", "b", "~", "#", "e", "l", "s", "e", "~", "c", "~", "#", "e", "n", "d", "i", "f", "~">>]>>
+  [] k = "else_end" ->
+     <<[t |-> "f", c |-> "", v |-> <<"#", "i", "f", " ", "0", "~", "a", "~", "#">>],
+       [t |-> "s", c |-> "o", v |-> <<>>],
+       [t |-> "f", c |-> "", v |-> <<"e", "l", "s", "e">>],
+       [t |-> "s", c |-> "e", v |-> <<>>],
+       [t |-> "f", c |-> "", v |-> <<"~", "c", "~", "#">>],
+       [t |-> "s", c |-> "o", v |-> <<>>],
+       [t |-> "f", c |-> "", v |-> <<"e", "n", "d", "i", "f">>],
+       [t |-> "s", c |-> "e", v |-> <<>>],
+       [t |-> "f", c |-> "", v |-> <<"~", "d", "~">>]>>
+  [] k = "ifdef" ->
+     <<[t |-> "f", c |-> "", v |-> <<"#", "d", "e", "f", "i", "n", "e", " ", "L", " ", "1", "~", "#">>],
+       [t |-> "s", c |-> "o", v |-> <<>>],
+       [t |-> "f", c |-> "", v |-> <<"i", "f", "d", "e", "f">>],
+       [t |-> "s", c |-> "d", v |-> <<>>],
+       [t |-> "f", c |-> "", v |-> <<"L">>],
+       [t |-> "s", c |-> "e", v |-> <<>>],
+       [t |-> "f", c |-> "", v |-> <<"~", "t", "~", "#", "e", "n", "d", "i", "f", "~", "#">>],
+       [t |-> "s", c |-> "o", v |-> <<>>],
+       [t |-> "f", c |-> "", v |-> <<"i", "f", "n", "d", "e", "f">>],
+       [t |-> "s", c |-> "d", v |-> <<>>],
+       [t |-> "f", c |-> "", v |-> <<"L">>],
+       [t |-> "s", c |-> "e", v |-> <<>>],
+       [t |-> "f", c |-> "", v |-> <<"~", "n", "~", "#", "e", "n", "d", "i", "f", "~">>]>>
+  [] k = "undef" ->
+     <<[t |-> "f", c |-> "", v |-> <<"#", "d", "e", "f", "i", "n", "e", " ", "A", " ", "1", "~", "#">>],
+       [t |-> "s", c |-> "o", v |-> <<>>],
+       [t |-> "f", c |-> "", v |-> <<"u", "n", "d", "e", "f">>],
+       [t |-> "s", c |-> "d", v |-> <<>>],
+       [t |-> "f", c |-> "", v |-> <<"A">>],
+       [t |-> "s", c |-> "e", v |-> <<>>],
+       [t |-> "f", c |-> "", v |-> <<"~", "A", "~">>]>>
+  [] k = "include" ->
+     <<[t |-> "f", c |-> "", v |-> <<"#">>],
+       [t |-> "s", c |-> "o", v |-> <<>>],
+       [t |-> "f", c |-> "", v |-> <<"i", "n", "c", "l", "u", "d", "e">>],
+       [t |-> "s", c |-> "d", v |-> <<>>],
+       [t |-> "f", c |-> "", v |-> <<"@", "c", "0", "9", "i", "n", "c", ".", "h", "@">>],
+       [t |-> "s", c |-> "e", v |-> <<>>],
+       [t |-> "f", c |-> "", v |-> <<"~", "x", "~">>]>>
+  [] k = "digraph" ->
+     <<[t |-> "f", c |-> "", v |-> <<"%", ":">>],
+       [t |-> "s", c |-> "o", v |-> <<>>],
+       [t |-> "f", c |-> "", v |-> <<"d", "e", "f", "i", "n", "e">>],
+       [t |-> "s", c |-> "d", v |-> <<>>],
+       [t |-> "f", c |-> "", v |-> <<"D", "(", "x", ")">>],
+       [t |-> "s", c |-> "d", v |-> <<>>],
+       [t |-> "f", c |-> "", v |-> <<"%", ":", "x">>],
+       [t |-> "s", c |-> "d", v |-> <<>>],
+       [t |-> "f", c |-> "", v |-> <<"1", " ", "x">>],
+       [t |-> "s", c |-> "o", v |-> <<>>],
+       [t |-> "f", c |-> "", v |-> <<"%", ":", "%", ":">>],
+       [t |-> "s", c |-> "o", v |-> <<>>],
+       [t |-> "f", c |-> "", v |-> <<"x">>],
+       [t |-> "s", c |-> "e", v |-> <<>>],
+       [t |-> "f", c |-> "", v |-> <<"~", "D", "(", "p", ")", " ", "<", ":", "1", ":", ">", " ", "<", "%", "%", ">", "~">>]>>
+  [] k = "argcmt" ->
+     <<[t |-> "f", c |-> "", v |-> <<"#", "d", "e", "f", "i", "n", "e", " ", "F", "(", "x", ",", "y", ")", " ", "[", "x", "|", "y", "]", "~", "#", "d", "e", "f", "i", "n", "e", " ", "S", "(", "x", ")", " ", "#", "x", "~", "S", "(">>],
+       [t |-> "s", c |-> "a", v |-> <<>>],
+       [t |-> "f", c |-> "", v |-> <<"p">>],
+       [t |-> "s", c |-> "a", v |-> <<>>],
+       [t |-> "f", c |-> "", v |-> <<"q">>],
+       [t |-> "s", c |-> "a", v |-> <<>>],
+       [t |-> "f", c |-> "", v |-> <<")", " ", "F", "(">>],
+       [t |-> "s", c |-> "a", v |-> <<>>],
+       [t |-> "f", c |-> "", v |-> <<",">>],
+       [t |-> "s", c |-> "a", v |-> <<>>],
+       [t |-> "f", c |-> "", v |-> <<")", "~">>]>>
+SkelNames == SelectSeq(<<"def_obj", "def_fn", "call2", "call1", "call0", "if_expr", "elif", "else_end", "ifdef", "undef", "include", "digraph", "argcmt">>, LAMBDA k : k \in KindSet)
+FileInit == \E i \in 1..Len(SkelNames) : Mine(i) /\ g = [sk |-> SkelNames[i], i |-> 1, txt |-> <<>>] /\ ph = "gen"
+FileNext ==
+  /\ ph = "gen"
+  /\ LET sk == Skel(g.sk) IN
+     IF g.i > Len(sk) THEN g' = g /\ ph' = "done"
+     ELSE LET sg == sk[g.i] IN
+          IF sg.t = "f" THEN g' = [g EXCEPT !.i = @ + 1, !.txt = @ \o sg.v] /\ ph' = "gen"
+          ELSE \E j \in 1..Len(GapClass(sg.c)) :
+                 /\ GapClass(sg.c)[j] \in GapSet
+                 /\ g' = [g EXCEPT !.i = @ + 1, !.txt = @ \o GapCh(GapClass(sg.c)[j])] /\ ph' = "gen"
+
+RECURSIVE CutLines(_, _)
+CutLines(ts, cur) ==                  \* lines = maximal runs of tokens; a token with nl starts a new one
+  IF ts = <<>> THEN (IF cur = <<>> THEN <<>> ELSE <<cur>>)
+  ELSE IF Head(ts).nl /\ cur # <<>> THEN <<cur>> \o CutLines(Tail(ts), <<Head(ts)>>)
+  ELSE CutLines(Tail(ts), Append(cur, Head(ts)))
+
+(* ---- #if expressions of this family: defined, macros, numbers, identifiers = 0, ! && || ( ) *)
+RECURSIVE ReplDefined(_, _)
+ReplDefined(env, ts) ==               \* 6.10.1p1: defined X and defined ( X ) before macro replacement
+  IF ts = <<>> THEN <<>>
+  ELSE IF Head(ts).k = "id" /\ Head(ts).s = <<"d", "e", "f", "i", "n", "e", "d">> THEN
+    LET one(sp) == Tok("num", IF DefIdx([env |-> env], sp) # 0 THEN <<"1">> ELSE <<"0">>, TRUE) IN
+    IF Len(ts) >= 2 /\ ts[2].k = "id" THEN <<one(ts[2].s)>> \o ReplDefined(env, SubSeq(ts, 3, Len(ts)))
+    ELSE IF Len(ts) >= 4 /\ IsPu(ts[2], <<"(">>) /\ ts[3].k = "id" /\ IsPu(ts[4], <<")">>)
+         THEN <<one(ts[3].s)>> \o ReplDefined(env, SubSeq(ts, 5, Len(ts)))
+    ELSE <<ErrTok("I")>>
+  ELSE <<Head(ts)>> \o ReplDefined(env, Tail(ts))
+RECURSIVE POr(_, _), PAnd(_, _), PUn(_, _)
+PFail == [ok |-> FALSE, v |-> FALSE, i |-> 0]
+PUn(ts, i) ==
+  IF i > Len(ts) THEN PFail
+  ELSE IF IsPu(ts[i], <<"!">>) THEN LET r == PUn(ts, i + 1) IN IF r.ok THEN [r EXCEPT !.v = ~r.v] ELSE PFail
+  ELSE IF IsPu(ts[i], <<"(">>) THEN LET r == POr(ts, i + 1) IN
+       IF r.ok /\ r.i <= Len(ts) /\ IsPu(ts[r.i], <<")">>) THEN [r EXCEPT !.i = @ + 1] ELSE PFail
+  ELSE IF ts[i].k = "num" THEN [ok |-> TRUE, v |-> ts[i].s # <<"0">>, i |-> i + 1]
+  ELSE IF ts[i].k = "id" THEN [ok |-> TRUE, v |-> FALSE, i |-> i + 1]          \* 6.10.1p4: remaining identifiers are 0
+  ELSE PFail
+PAnd(ts, i) == LET a == PUn(ts, i) IN
+  IF ~a.ok THEN PFail
+  ELSE IF a.i <= Len(ts) /\ IsPu(ts[a.i], <<"&", "&">>) THEN LET b == PAnd(ts, a.i + 1) IN IF b.ok THEN [b EXCEPT !.v = a.v /\ b.v] ELSE PFail
+  ELSE a
+POr(ts, i) == LET a == PAnd(ts, i) IN
+  IF ~a.ok THEN PFail
+  ELSE IF a.i <= Len(ts) /\ IsPu(ts[a.i], <<"|", "|">>) THEN LET b == POr(ts, a.i + 1) IN IF b.ok THEN [b EXCEPT !.v = a.v \/ b.v] ELSE PFail
+  ELSE a
+EvalIf(env, ts) ==                    \* [ok, v]
+  LET d == ReplDefined(env, ts)
+      x == IF AnyErr(d) THEN d ELSE Expand([env |-> env, pol |-> "A"], d).o
+      r == IF AnyErr(x) \/ x = <<>> THEN PFail ELSE POr(x, 1)
+  IN [ok |-> r.ok /\ r.i = Len(x) + 1, v |-> r.v]
+
+(* ---- #define *)
+RECURSIVE Params(_, _, _)
+Params(d, i, ps) ==                   \* d[i-1] was ( or , ; returns [ok, ps, va, nxt]
+  IF i > Len(d) THEN [ok |-> FALSE]
+  ELSE IF IsPu(d[i], <<")">>) /\ ps = <<>> /\ IsPu(d[i - 1], <<"(">>) THEN [ok |-> TRUE, ps |-> ps, va |-> FALSE, nxt |-> i + 1]
+  ELSE IF IsPu(d[i], <<".", ".", ".">>) /\ i < Len(d) /\ IsPu(d[i + 1], <<")">>) THEN [ok |-> TRUE, ps |-> ps, va |-> TRUE, nxt |-> i + 2]
+  ELSE IF d[i].k = "id" /\ i < Len(d) /\ IsPu(d[i + 1], <<")">>) THEN [ok |-> TRUE, ps |-> Append(ps, d[i].s), va |-> FALSE, nxt |-> i + 2]
+  ELSE IF d[i].k = "id" /\ i < Len(d) /\ IsPu(d[i + 1], <<",">>) THEN Params(d, i + 2, Append(ps, d[i].s))
+  ELSE [ok |-> FALSE]
+MkMacro(d) ==                         \* d = the tokens after "define"; [ok, m]
+  IF d = <<>> \/ d[1].k # "id" THEN [ok |-> FALSE]
+  ELSE IF Len(d) >= 2 /\ IsPu(d[2], <<"(">>) /\ ~d[2].ws THEN                   \* ( immediately after the name: function-like (6.10.3p10)
+    LET p == Params(d, 3, <<>>) IN
+    IF ~p.ok THEN [ok |-> FALSE]
+    ELSE [ok |-> TRUE, m |-> [name |-> d[1].s, fl |-> TRUE, params |-> p.ps, va |-> p.va, body |-> SubSeq(d, p.nxt, Len(d))]]
+  ELSE [ok |-> TRUE, m |-> [name |-> d[1].s, fl |-> FALSE, params |-> <<>>, va |-> FALSE, body |-> SubSeq(d, 2, Len(d))]]
+BodyWf(m) == m.body = <<>> \/ (~IsPaste(m.body[1]) /\ ~IsPaste(Last(m.body)))
+
+IncToks == <<[Tok("id", <<"i", "n", "c", "_", "t", "o", "k">>, TRUE) EXCEPT !.nl = TRUE]>>
+DirName(str) == CASE str = "define" -> <<"d", "e", "f", "i", "n", "e">> [] str = "undef" -> <<"u", "n", "d", "e", "f">>
+                [] str = "if" -> <<"i", "f">> [] str = "ifdef" -> <<"i", "f", "d", "e", "f">> [] str = "ifndef" -> <<"i", "f", "n", "d", "e", "f">>
+                [] str = "elif" -> <<"e", "l", "i", "f">> [] str = "else" -> <<"e", "l", "s", "e">> [] str = "endif" -> <<"e", "n", "d", "i", "f">>
+                [] str = "include" -> <<"i", "n", "c", "l", "u", "d", "e">>
+File0 == [env |-> <<>>, stk |-> <<>>, out |-> <<>>, pend |-> <<>>, st |-> "D", ft |-> {}]
+Flush(S) ==
+  IF S.pend = <<>> THEN S
+  ELSE LET r == RunMac(S.env, S.pend) IN
+       IF r.st # "D" THEN [S EXCEPT !.pend = <<>>, !.st = Worse(@, r.st)]
+       ELSE [S EXCEPT !.pend = <<>>, !.out = @ \o r.toks, !.ft = @ \cup r.ft]
+Fail(S) == [S EXCEPT !.st = "I"]
+Directive(d, S) ==                    \* d = the tokens after # ; pending text was flushed
+  IF d = <<>> THEN S                                                                           \* null directive
+  ELSE IF d[1].k # "id" THEN Fail(S)
+  ELSE LET n == d[1].s
+           act == Active(S.stk)
+           top == Last(S.stk)
+           rest == SubSeq(d, 2, Len(d))
+           push(v) == IF act THEN [S EXCEPT !.stk = Append(@, [par |-> TRUE, taken |-> v, cur |-> v, els |-> FALSE])]
+                      ELSE [S EXCEPT !.stk = Append(@, [par |-> FALSE, taken |-> FALSE, cur |-> FALSE, els |-> FALSE])]
+       IN
+    IF n = DirName("if") THEN
+       IF ~act THEN push(FALSE) ELSE LET e == EvalIf(S.env, rest) IN IF e.ok THEN push(e.v) ELSE Fail(S)
+    ELSE IF n \in {DirName("ifdef"), DirName("ifndef")} THEN
+       IF ~act THEN push(FALSE)
+       ELSE IF Len(rest) # 1 \/ rest[1].k # "id" THEN Fail(S)
+       ELSE push((DefIdx([env |-> S.env], rest[1].s) # 0) = (n = DirName("ifdef")))
+    ELSE IF n = DirName("elif") THEN
+       IF S.stk = <<>> \/ top.els THEN Fail(S)
+       ELSE IF ~top.par \/ top.taken THEN [S EXCEPT !.stk[Len(S.stk)].cur = FALSE]
+       ELSE LET e == EvalIf(S.env, rest) IN
+            IF e.ok THEN [S EXCEPT !.stk[Len(S.stk)].cur = e.v, !.stk[Len(S.stk)].taken = e.v] ELSE Fail(S)
+    ELSE IF n = DirName("else") THEN
+       IF S.stk = <<>> \/ top.els \/ rest # <<>> THEN Fail(S)
+       ELSE [S EXCEPT !.stk[Len(S.stk)] = [par |-> top.par, taken |-> TRUE, cur |-> top.par /\ ~top.taken, els |-> TRUE]]
+    ELSE IF n = DirName("endif") THEN IF S.stk = <<>> \/ rest # <<>> THEN Fail(S) ELSE [S EXCEPT !.stk = Front(@)]
+    ELSE IF ~act THEN S                                                                        \* skipped group: only the name is looked at
+    ELSE IF n = DirName("define") THEN
+       LET r == MkMacro(rest) IN
+       IF ~r.ok THEN Fail(S)
+       ELSE IF DefIdx([env |-> S.env], r.m.name) # 0 \/ ~BodyWf(r.m) THEN Fail(S)
+       ELSE [S EXCEPT !.env = Append(@, r.m),
+                      !.ft = @ \cup {IF r.m.fl THEN "define_fn" ELSE "define_obj"}
+                               \cup (IF \E i \in 1..Len(r.m.body) : IsPu(r.m.body[i], <<"%", ":">>) \/ IsPu(r.m.body[i], <<"%", ":", "%", ":">>)
+                                     THEN {"digraph_operator"} ELSE {})]
+    ELSE IF n = DirName("undef") THEN
+       IF Len(rest) # 1 \/ rest[1].k # "id" THEN Fail(S)
+       ELSE [S EXCEPT !.env = SelectSeq(@, LAMBDA m : m.name # rest[1].s), !.ft = @ \cup {"undef"}]
+    ELSE IF n = DirName("include") THEN
+       IF Len(rest) # 1 \/ rest[1].k # "str" THEN Fail(S) ELSE [S EXCEPT !.pend = IncToks, !.ft = @ \cup {"include"}]
+    ELSE Fail(S)
+RECURSIVE PPLines(_, _)
+PPLines(ls, S) ==
+  IF ls = <<>> THEN Flush(S)
+  ELSE LET l == Head(ls) IN
+       IF IsHash(l[1]) THEN PPLines(Tail(ls), Directive(Tail(l), Flush(S)))
+       ELSE IF Active(S.stk) THEN PPLines(Tail(ls), [S EXCEPT !.pend = @ \o l])
+       ELSE PPLines(Tail(ls), S)
+FileRow ==
+  LET toks == LexFrom(g.txt, 1, TRUE, TRUE)
+      bad == \E i \in 1..Len(toks) : toks[i].k = "bad"
+      S == IF bad THEN Fail(File0) ELSE PPLines(CutLines(toks, <<>>), File0)
+      st == IF S.stk # <<>> THEN "I" ELSE S.st
+      cm == \E i \in 1..(Len(g.txt) - 1) : g.txt[i] = "/" /\ g.txt[i + 1] = "*"
+      cmnl == \E i \in 2..(Len(g.txt) - 1) : g.txt[i] = "~" /\ g.txt[i - 1] = "c" /\ g.txt[i + 1] = "d"
+  IN IF st # "D" THEN [fam |-> "file", sk |-> g.sk, src |-> JoinC(g.txt), st |-> st]
+     ELSE IF Spell(LexLine(TextOf(S.out))) # Spell(S.out) THEN [fam |-> "file", sk |-> g.sk, src |-> JoinC(g.txt), st |-> "G"]
+     ELSE [fam |-> "file", sk |-> g.sk, src |-> JoinC(g.txt), st |-> "D", exp |-> Spell(S.out),
+           ft |-> S.ft \cup (IF cm THEN {"block_comment"} ELSE {}) \cup (IF cmnl THEN {"block_comment_spans_lines"} ELSE {})]
 
 (* ======================================================================= *)
 (*                       W64cpp table (host cross-check)                   *)
@@ -772,9 +1129,9 @@ W64Init == \E i \in 1..Len(W64Ops), a \in 1..Len(Grid), b \in 1..Len(Grid) :
 W64Row == [fam |-> "w64", op |-> g.op, a |-> Hex(g.a), b |-> Hex(g.b), r |-> Hex(W64Res(g.op, g.a, g.b))]
 
 (* ======================================================================= *)
-Init == (Fam = "lex" /\ LexInit) \/ (Fam = "mac" /\ MacInit) \/ (Fam = "if" /\ IfInit) \/ (Fam = "cond" /\ CondInit) \/ (Fam = "w64" /\ W64Init)
-Next == (Fam = "lex" /\ LexNext) \/ (Fam = "mac" /\ MacNext) \/ (Fam = "if" /\ IfNext) \/ (Fam = "cond" /\ CondNext)
-Row == CASE Fam = "lex" -> LexRow [] Fam = "mac" -> MacRow [] Fam = "if" -> IfRow [] Fam = "cond" -> CondRow [] Fam = "w64" -> W64Row
+Init == (Fam = "file" /\ FileInit) \/ (Fam = "lex" /\ LexInit) \/ (Fam = "mac" /\ MacInit) \/ (Fam = "if" /\ IfInit) \/ (Fam = "cond" /\ CondInit) \/ (Fam = "w64" /\ W64Init)
+Next == (Fam = "file" /\ FileNext) \/ (Fam = "lex" /\ LexNext) \/ (Fam = "mac" /\ MacNext) \/ (Fam = "if" /\ IfNext) \/ (Fam = "cond" /\ CondNext)
+Row == CASE Fam = "file" -> FileRow [] Fam = "lex" -> LexRow [] Fam = "mac" -> MacRow [] Fam = "if" -> IfRow [] Fam = "cond" -> CondRow [] Fam = "w64" -> W64Row
 EmitInv == ph = "done" => EmitJ(Row)
 Spec == Init /\ [][Next]_vars
 =============================================================================
